@@ -108,6 +108,7 @@ class BuildResult:
     def __init__(self):
         self.gen_ok = True
         self.gen_msg = ""
+        self.scoped_gen = {}
         self.failed_vo: list[str] = []   # .v files whose compilation failed
         self.log = ""
         self.driver_ok = False
@@ -129,11 +130,19 @@ def build(targets: list[str] | None = None) -> BuildResult:
     with open(os.path.join(VERIF, ".lock", "build.lock"), "w") as lk:
         fcntl.flock(lk, fcntl.LOCK_EX)
         env = dict(os.environ, PYTHONHASHSEED="0", VERIF_REPO=REPO, PYTHONPATH=REPO)
-        for g in ("tables.py", "formats.py", "commands.py"):
+        for g in ("tables.py", "formats.py"):                 # the executable model itself is built from these
             rc, out = _run([PY, os.path.join(VERIF, "gen", g)], env=env, timeout=120)
             if rc != 0:
                 r.gen_ok = False
                 r.gen_msg += f"gen/{g} failed (rc={rc}):\n{out[-2000:]}\n"
+        # translators whose output only some proofs depend on: when one fails closed its output is replaced by a file that
+        # does not compile, so exactly the obligations resting on it stop checking (and say why)
+        for g, outv in (("commands.py", "Gen/Commands.v"), ("exprs.py", "Gen/Exprs.v")):
+            rc, out = _run([PY, os.path.join(VERIF, "gen", g)], env=env, timeout=120)
+            if rc != 0:
+                r.scoped_gen[outv] = f"gen/{g} failed closed: {out.strip().splitlines()[-1] if out.strip() else rc}"
+                with open(os.path.join(COQ, outv), "w") as fh:
+                    fh.write("(* %s *)\nDefinition translator_failed_closed : True := 0.\n" % r.scoped_gen[outv].replace("*)", "* )"))
         if not os.path.exists(os.path.join(COQ, "Makefile")):
             _run(["coq_makefile", "-f", "_CoqProject", "-o", "Makefile"], cwd=COQ)
         rc, out = _run(["timeout", "1500", "make", "-k", "-j", str(NPROC)], cwd=COQ, timeout=1600)
